@@ -57,6 +57,9 @@ def gen_tokens(rng):
             # ... also inside a loop, right before the loop-break ':' (which is an argument separator inside expressions)
             toks += ["[%d" % rng.randint(2, 3), rng.choice(["c", "d8 e"]), rng.choice(["Tempo=%d" % rng.randint(60, 200), "@%d" % rng.randint(1, 128), "TR=1", "v=%d" % rng.randint(1, 127), "y7,%d" % rng.randint(0, 127)]) + "\0", ":", rng.choice(["g", "a b"]), "]"]
     if rng.random() < 0.08:
+        # a key-flag list written without parentheses ends with its line: note names at the start of the next line are notes
+        toks += [rng.choice(["KeyFlag+fc", "KeyFlag-be", "KeyFlag+f", "KeyFlag-bea"]) + "\2", rng.choice(["cdefg", "a b l8 cdefgab", "f c", "e"]), "c"]
+    if rng.random() < 0.08:
         # a macro / string variable that is defined, referred to without arguments at the end of a line, and a tuplet or a velocity step on the next line
         d_, r_ = rng.choice([("#M={c8d8}", "#M"), ("STR S2={c8d8};", "S2")])
         toks += [d_, r_ + "\2", rng.choice(["{efg}4", "(e f) g", "{c d}2 e", "( c"]), "c"]
